@@ -181,6 +181,21 @@ Fixpoint lines_tags (a b : list string) : list string :=
        else ["viol:installed-read-write-not-fixpoint"]) ++ lines_tags a' b'
   | _, _ => ["viol:installed-read-write-not-fixpoint"]
   end.
+(* A package whose file list names one DIRECTORY twice (legal in a tar stream):
+   sortTarHeaders emits the directory once per header and under EACH of them all
+   its children, so every write multiplies the records (finding C16-F7). The
+   generic fixpoint tag is attributed to that mechanism only when the input has
+   such a pair. *)
+Fixpoint dup_dir (files : list hdr) : bool :=
+  match files with
+  | [] => false
+  | h :: t => (h_isdir h && existsb (fun g => h_isdir g && (clean (h_name g) =? clean (h_name h))) t) || dup_dir t
+  end.
+Definition s_notfix : string := "viol:installed-read-write-not-fixpoint".
+Definition attribute_dup_dir (files : list hdr) (tags : list string) : list string :=
+  if dup_dir files && existsb (String.eqb s_notfix) tags
+  then "viol:installed-duplicate-directory-header-multiplies-records" :: filter (fun t => negb (t =? s_notfix)) tags
+  else tags.
 Definition installed_fixpoint_tags (orig : string) (rewritten : res string) : list string :=
   match rewritten with
   | Ok s =>
